@@ -30,7 +30,7 @@ func init() {
 			{Name: "thorough-checkptr", BuildFlags: []string{"-gcflags=all=-d=checkptr"}},
 			{Name: "thorough-asan", BuildFlags: []string{"-asan"}},
 		},
-		RequiredMonitors: []string{"construct", "bytes-vs-independent", "roundtrip", "reencode", "independent-reader", "byteorder", "trailing", "append-prefix", "value", "scan-match", "scan-mismatch", "null", "concrete-entry"},
+		RequiredMonitors: []string{"construct", "bytes-vs-independent", "roundtrip", "reencode", "independent-reader", "byteorder", "trailing", "append-prefix", "value", "scan-match", "scan-mismatch", "null", "input-unchanged", "receiver-reuse", "concrete-entry"},
 		Run:              runAll,
 	})
 }
@@ -88,15 +88,27 @@ func checkTree(k *run.K, t model.Tree, scan bool) {
 			masks = append(masks, k.Rng.Uint64())
 		}
 	}
+	var lastMixed []byte
 	for _, m := range masks {
 		m := m
 		w := &codec.WKBWriter{Order: func(e int) bool { return m>>(uint(e)%64)&1 == 1 }}
 		w.Write(t)
 		var dg geom.Geometry
 		var derr error
+		snap := append([]byte(nil), w.Buf...)
 		if k.Lib("nopanic", func() { dg, derr = geom.UnmarshalWKB(w.Buf, geom.NoValidate{}) }) {
 			continue
 		}
+		// the decoder must not write to the caller's buffer, and decoding the same buffer again gives the same value
+		k.Check("input-unchanged", bytes.Equal(snap, w.Buf), "UnmarshalWKB modified its input buffer (byte-order mask %b)\n before %x\n after  %x", m, snap, w.Buf)
+		if derr == nil && bytes.Equal(snap, w.Buf) {
+			var dg2 geom.Geometry
+			var derr2 error
+			if !k.Lib("nopanic", func() { dg2, derr2 = geom.UnmarshalWKB(w.Buf, geom.NoValidate{}) }) {
+				k.Check("input-unchanged", derr2 == nil && model.Equal(treeOf(dg2), treeOf(dg)), "decoding the same buffer twice gives different values (mask %b): err=%v", m, derr2)
+			}
+		}
+		lastMixed = w.Buf
 		ok := derr == nil
 		if ok {
 			dt, iss := model.FromGeom(dg)
@@ -135,10 +147,10 @@ func checkTree(k *run.K, t model.Tree, scan bool) {
 	if !scan {
 		return
 	}
-	scanChecks(k, g, t, lib)
+	scanChecks(k, g, t, lib, lastMixed)
 }
 
-func scanChecks(k *run.K, g geom.Geometry, t model.Tree, lib []byte) {
+func scanChecks(k *run.K, g geom.Geometry, t model.Tree, lib, lastMixed []byte) {
 	// into Geometry
 	var sg geom.Geometry
 	if err := sg.Scan(append([]byte(nil), lib...)); !k.Check("scan-match", err == nil && model.Equal(treeOf(sg), t), "Geometry.Scan: err=%v", err) {
@@ -205,6 +217,36 @@ func scanChecks(k *run.K, g geom.Geometry, t model.Tree, lib []byte) {
 			k.Check("scan-match", ok, "%v.Scan/Value round trip: err=%v", tg.typ, err)
 		} else {
 			k.Check("scan-mismatch", err != nil, "scanning a %v into a %v succeeded", t.Type, tg.typ)
+		}
+	}
+	// one shared buffer (mixed byte orders) through every adapter in turn: rejected scans must leave it intact
+	if lastMixed != nil {
+		shared := append([]byte(nil), lastMixed...)
+		for _, tg := range targets {
+			var out geom.Geometry
+			var err error
+			if k.Lib("nopanic", func() { out, _, err = tg.scan(shared) }) {
+				continue
+			}
+			k.Check("input-unchanged", bytes.Equal(shared, lastMixed), "%v.Scan modified the buffer it was given", tg.typ)
+			if tg.typ == t.Type {
+				k.Check("input-unchanged", err == nil && model.Equal(treeOf(out), t), "%v.Scan of a buffer that other adapters had seen before: err=%v", tg.typ, err)
+			}
+		}
+	}
+	// receivers that already hold a value are overwritten completely
+	{
+		prev := model.RandTree(k.Rng, t.Type, model.CTypes[k.Rng.Intn(4)], 1, model.ValueOpts{Simple: true})
+		pb := codec.EncodeWKB(prev)
+		var x geom.Geometry
+		var e1, e2 error
+		if !k.Lib("nopanic", func() { e1 = x.Scan(pb); e2 = x.Scan(append([]byte(nil), lib...)) }) {
+			// (the first value is arbitrary and may be refused by validation: only the second scan is judged)
+			k.Check("receiver-reuse", e2 == nil && model.Equal(treeOf(x), t), "Geometry.Scan into a receiver that was used before (%s: %v): %v, got %s", prev, e1, e2, treeOf(x))
+		}
+		var n2 geom.NullGeometry
+		if !k.Lib("nopanic", func() { e1 = n2.Scan(pb); e2 = n2.Scan(nil) }) {
+			k.Check("receiver-reuse", e2 == nil && !n2.Valid, "NullGeometry.Scan(nil) after a value: valid=%v err=%v", n2.Valid, e2)
 		}
 	}
 	// NullGeometry
